@@ -157,6 +157,8 @@ func (ent *entityNode) acceptStatus(visitor FileVisitor) error {
 	if err != nil {
 		return wrapErr(ent.Source, err)
 	}
+	// the statuses are the options, held directly in the entity's status list.
+	node.optionsSource = node.Source
 
 	return visitor.VisitEnum(node)
 }
